@@ -14,7 +14,11 @@ def main():
   checks = []
   have = set()
   for path in sorted(glob.glob(os.path.join(core.VERIF, 'harness', 'props', 'c*.py'))):
-    mod = importlib.import_module('harness.props.' + os.path.basename(path)[:-3])
+    try:
+      mod = importlib.import_module('harness.props.' + os.path.basename(path)[:-3])
+    except Exception as e:
+      print('cannot import', path, e)
+      continue
     if getattr(mod, 'DISABLED', False):
       continue
     have.add(mod.ID)
